@@ -87,3 +87,42 @@ Definition seq_check (c : seq_case) : bool :=
 (* per call: (holds right after the call, still holds after the later calls) *)
 Definition seq_explain (c : seq_case) : list (bool * bool * expected) :=
   map (fun p => (call_check (fst p), call_check (snd p), call_expected (fst p))) (combine (sq_now c) (sq_after c)).
+
+(* ---------------------------------------------------------------- run-length encoded inputs (large groups / long lanes)
+   The logical row-major input is given as (value, repetitions) runs and expanded HERE, so that a 1024-word all-ones
+   row is a two-token literal; the expected value is the same [hw_array popcount] / [reduce_axis] of Model/Models.v
+   on the expanded array (the specification does not change: a group sum is a sum in N, it cannot wrap). *)
+Definition expand {A} (runs : list (A * nat)) : list A := flat_map (fun p => repeat (fst p) (snd p)) runs.
+
+Record hw_rle_case := {
+  hr_itemsize : N;
+  hr_k : nat;
+  hr_shape : list nat;
+  hr_axis : nat;
+  hr_runs : list (N * nat);
+  hr_obs_shape : list nat;
+  hr_obs : list N
+}.
+
+Definition hw_rle_expand (c : hw_rle_case) : hw_case :=
+  {| hw_itemsize := hr_itemsize c; hw_k := hr_k c; hw_shape := hr_shape c; hw_axis := hr_axis c;
+     hw_in := expand (hr_runs c); hw_obs_shape := hr_obs_shape c; hw_obs := hr_obs c |}.
+
+Definition hw_rle_check (c : hw_rle_case) : bool := call_check (CHw (hw_rle_expand c)).
+Definition hw_rle_expected (c : hw_rle_case) : list N := hw_expected_spec (hw_rle_expand c).
+
+Record disc_rle_case := {
+  dr_op : disc_op;
+  dr_shape : list nat;
+  dr_axis : nat;
+  dr_runs : list (fval * nat);
+  dr_obs_shape : list nat;
+  dr_obs : list fval
+}.
+
+Definition disc_rle_expand (c : disc_rle_case) : disc_case :=
+  {| dc_op := dr_op c; dc_shape := dr_shape c; dc_axis := dr_axis c; dc_in := expand (dr_runs c);
+     dc_obs_shape := dr_obs_shape c; dc_obs := dr_obs c |}.
+
+Definition disc_rle_check (c : disc_rle_case) : bool := call_check (CDisc (disc_rle_expand c)).
+Definition disc_rle_expected (c : disc_rle_case) : list oq := disc_expected (disc_rle_expand c).
